@@ -1,8 +1,8 @@
 (** * C02 - Change feed is the complete ordered version history; tokens resume exactly.
     Only statements, each closed by [exact <lemma>] (or a short wrapper), with [Print Assumptions]. *)
 From Coq Require Import List ZArith NArith Bool Lia.
-From DH Require Import Lib.CheckLib Model.Store Model.FeedSpec Proofs.StoreProofs Proofs.StoreReaders
-     Proofs.FeedSpecProofs Check.StoreCheck Proofs.C02CheckProofs.
+From DH Require Import Lib.CheckLib Model.Store Model.FeedSpec Model.ReverseReader Proofs.StoreProofs Proofs.StoreReaders
+     Proofs.FeedSpecProofs Proofs.ReverseProofs Check.StoreCheck Proofs.C02CheckProofs.
 Import ListNotations.
 Open Scope Z_scope.
 
@@ -92,6 +92,23 @@ Theorem C02_resume : forall f g limit,
   exists r, g = out ++ r /\ (limit <= 0 -> r = []) /\ next = Z.of_nat (length f) + Z.of_nat (length out).
 Proof. exact resume_after_writes. Qed.
 Print Assumptions C02_resume.
+
+(** The reverse reader (iterator.Inverse as the HTTP handler drives it) returns exactly the spec's page and token ... *)
+Theorem C02_reverse_refines : forall clk d since limit,
+  dinv clk d -> 0 <= since \/ since = from_end ->
+  let '(out, tok) := changes_rev d since limit in
+  (map StoreReaders.entry_oent out, tok) = spec_changes_rev (feed_of d) since limit.
+Proof. exact changes_rev_refines. Qed.
+Print Assumptions C02_reverse_refines.
+
+(** ... and a non-empty reverse page is the top of the versions below [since], in descending order; its token is the
+    position of its last entry, so the next page continues exactly below it: nothing skipped, nothing repeated *)
+Theorem C02_reverse_paging : forall f since limit, 0 < since ->
+  let '(out, tok) := spec_changes_rev f since limit in
+  out <> [] ->
+  exists rest, rev (takez since f) = out ++ rest /\ rest = rev (takez tok f) /\ 0 <= tok < since.
+Proof. exact rev_page_partition. Qed.
+Print Assumptions C02_reverse_paging.
 
 (** ** the pinned tree: refutations by computation *)
 Definition cA : content := {| c_del := false; c_props := [(1, {| pv_code := 1; pv_obj := false |})]; c_refs := []; c_len := 50 |}.
